@@ -136,6 +136,81 @@ Section WithEnv.
       exists st', r, []. split; [exact E|]. right. exact Z.
   Qed.
 
+  (* ... and so does every entry read from a stream that has already failed *)
+  Lemma section_load_failed_is_empty st enc c idx pos lazy :
+    is_fail st = true ->
+    exists r, section_load junk st [] enc (with_index (new_section c) idx) pos lazy = Ok (st, r, []) /\ hdr_all_zero r /\ s_index r = idx.
+  Proof.
+    intros Hf. rewrite section_load_unfold. cbn [xlat_empty xlat_apply]. unfold section_load_rest. cbn [xlat_apply].
+    rewrite (seekg_end_failed st Hf), (seekg_failed st _ Hf), (read_failed st _ Hf).
+    change (s_cls (with_index (new_section c) idx)) with c.
+    destruct (N.eqb_spec (lenN (@nil N)) (shdr_size c)) as [E|_]; [destruct c; discriminate E|]. cbn [negb].
+    eexists. split; [reflexivity|]. split; [apply zero_header_fields|]. destruct c, enc; reflexivity.
+  Qed.
+
+  (* the whole section header table of a prefix.  [secs] are encoded entry after entry at shoff of the complete file
+     f; the stream holds a prefix of f (any length), in any state.  The loop of load_sections reports, index by
+     index, either exactly the encoded header fields or an empty section - never anything else *)
+  Definition same_or_empty (s r : section) : Prop := same_hdr s r \/ hdr_all_zero r.
+
+  Theorem load_sections_loop_of_prefix enc c shoff es (f : bytes) n : forall (secs : list section) fuel st i racc allocs,
+    st_inv st -> is_content st = firstnN f n -> shoff < 2 ^ 62 -> shdr_size c <= es ->
+    shoff + (i + lenN secs) * es < 2 ^ 62 ->
+    Forall (fun s => s_cls s = c /\ shdr_wf s) secs ->
+    (forall k s, nth_optN secs k = Some s -> shoff + (i + k) * es + shdr_size c <= lenN f /\
+                                             sliceN f (shoff + (i + k) * es) (shdr_size c) = shdr_bytes enc s) ->
+    (length secs <= fuel)%nat ->
+    exists st' loaded allocs',
+      load_sections_loop junk fuel st [] c enc shoff es i (i + lenN secs) true racc allocs = Ok (st', rev loaded ++ racc, allocs') /\
+      st_inv st' /\ is_content st' = firstnN f n /\ Forall2 same_or_empty secs loaded.
+  Proof.
+    induction secs as [|s t IH]; intros fuel st i racc allocs Hi Hc H62 Hes Hb1 Hwf Hsl Hfuel.
+    - cbn [lenN] in *. rewrite N.add_0_r. exists st, [], allocs. cbn [rev app].
+      destruct fuel; cbn [load_sections_loop]; [|rewrite N.ltb_irrefl]; repeat split; auto; constructor.
+    - rewrite lenN_cons in *. destruct fuel as [|fu]; [cbn in Hfuel; lia|]. cbn [length] in Hfuel.
+      inversion Hwf as [|? ? [Hcl Hw] Hwt]; subst.
+      cbn [load_sections_loop]. destruct (N.ltb_spec i (i + (1 + lenN t))); [|lia].
+      rewrite (table_pos_plain junk) by lia.
+      destruct (Hsl 0 s eq_refl) as [Hin0 Hs0]. rewrite N.add_0_r in Hin0, Hs0.
+      assert (Hstep : exists st1 r al, section_load junk st [] enc (with_index (new_section (s_cls s)) (wrap16 i)) (Z.of_N (shoff + i * es)) true = Ok (st1, r, al) /\
+                        st_inv st1 /\ is_content st1 = firstnN f n /\ ((same_hdr s r /\ s_cls r = s_cls s) \/ hdr_all_zero r)).
+      { destruct (section_load_total junk st [] enc (s_cls s) (wrap16 i) (Z.of_N (shoff + i * es)) true Hi) as (st1 & r & al & E & _ & C1 & I1 & _).
+        exists st1, r, al. split; [exact E|]. split; [exact I1|]. split; [congruence|].
+        destruct (is_fail st) eqn:Hf.
+        - destruct (section_load_failed_is_empty st enc (s_cls s) (wrap16 i) (Z.of_N (shoff + i * es)) true Hf) as (r0 & E0 & Z0 & _).
+          rewrite E in E0. injection E0 as _ <- _. right. exact Z0.
+        - destruct (N.le_gt_cases (shoff + i * es + shdr_size (s_cls s)) n) as [Hle|Hgt].
+          + assert (Hsl' : sliceN (firstnN f n) (shoff + i * es) (shdr_size (s_cls s)) = shdr_bytes enc s).
+            { rewrite <- Hs0. unfold sliceN. rewrite !firstnN_firstn, !skipnN_skipn.
+              rewrite skipn_firstn_comm, firstn_firstn. f_equal. lia. }
+            destruct (section_load_reports_lazy junk st enc (s_cls s) (wrap16 i) (shoff + i * es) s Hf Hi ltac:(lia)
+                        ltac:(rewrite Hc, lenN_firstnN_min; lia) eq_refl Hw ltac:(rewrite Hc; exact Hsl'))
+              as (st' & r' & al' & E' & _ & _ & _ & _ & _ & _ & CL1 & _ & A1 & A2 & A3 & A4 & A5 & A6 & A7 & A8 & A9 & A10 & _).
+            rewrite E in E'. injection E' as _ <- _. left. split; [unfold same_hdr; repeat split; assumption|exact CL1].
+          + destruct (section_load_cut_entry_is_empty st enc (s_cls s) (wrap16 i) (shoff + i * es) true Hf Hi ltac:(lia)
+                        ltac:(rewrite Hc, lenN_firstnN_min; lia)) as (st' & r' & E' & Z').
+            rewrite E in E'. injection E' as _ <- _. right. exact Z'. }
+      destruct Hstep as (st1 & r & al & -> & I1 & C1 & SE). cbn [bind].
+      set (r' := with_addr r (sh_addr r)).
+      replace (i + (1 + lenN t)) with ((i + 1) + lenN t) by lia.
+      destruct (IH fu st1 (i + 1) (r' :: racc) (al ++ allocs) I1 C1 H62 Hes) as (st' & loaded & allocs' & -> & I' & C' & H2).
+      + lia. + exact Hwt.
+      + intros k s' Hk. replace (i + 1 + k) with (i + (k + 1)) by lia. apply Hsl.
+        cbn [nth_optN]. destruct (N.eqb_spec (k + 1) 0); [lia|]. now replace (k + 1 - 1) with k by lia.
+      + lia.
+      + exists st', (r' :: loaded), allocs'. cbn [rev]. rewrite <- app_assoc. cbn [app].
+        split; [reflexivity|]. split; [exact I'|]. split; [exact C'|].
+        constructor; [|exact H2].
+        destruct SE as [[SH CL]|Z].
+        * left. unfold same_hdr, r' in *. cbn [sh_name sh_type sh_flags sh_addr sh_offset sh_size sh_link sh_info sh_addralign sh_entsize with_addr].
+          destruct SH as (A1 & A2 & A3 & A4 & A5 & A6 & A7 & A8 & A9 & A10).
+          destruct Hw as (_ & _ & _ & Hwa & _). rewrite CL. unfold wrap. rewrite N.mod_small by (rewrite A4; unfold fw in Hwa; destruct (s_cls s); exact Hwa).
+          repeat split; assumption.
+        * right. unfold hdr_all_zero, r' in *. cbn [sh_name sh_type sh_flags sh_addr sh_offset sh_size sh_link sh_info sh_addralign sh_entsize with_addr s_data].
+          destruct Z as (Z1 & Z2 & Z3 & Z4 & Z5 & Z6 & Z7 & Z8 & Z9 & Z10 & Z11). rewrite Z4. unfold wrap. rewrite N.mod_0_l by (apply N.pow_nonzero; lia).
+          repeat split; assumption.
+  Qed.
+
   (* ---------- program header table ---------- *)
   Lemma read_short_fails st (pos : N) n :
     is_fail st = false -> st_inv st -> pos < 2 ^ 63 -> lenN (is_content st) < pos + n -> 0 < n ->
